@@ -119,6 +119,10 @@ class Harness:
         self.violations = []       # dicts: key, kind, case, detail
         self.violation_keys = collections.Counter()
         self.known_hits = collections.Counter()
+        # development aid (RV_KNOWN_SAMPLES=n): a few details per listed key, to audit that every hit of a
+        # listed key really is the listed mechanism (a coarse key would hide other defects)
+        self.known_sample_n = int(os.environ.get('RV_KNOWN_SAMPLES', '0'))
+        self.known_samples = collections.defaultdict(list)
         self.harness_errors = []
         self.known = {e['key']: e for e in load_known()
                       if e.get('property') == self.prop and e.get('status') == 'known'}
@@ -163,6 +167,9 @@ class Harness:
         for key, detail in out.fails:
             if key in self.known:
                 self.known_hits[key] += 1
+                if self.known_sample_n and len(self.known_samples[key]) < self.known_sample_n and \
+                        (self.known_hits[key] - 1) % 7 == 0:
+                    self.known_samples[key].append(str(detail)[:400])
                 continue
             self.violation_keys[key] += 1
             if self.violation_keys[key] <= 2 and len(self.violations) < MAX_RECORDED:
@@ -214,6 +221,7 @@ class Harness:
             'violations': self.violations,
             'violation_keys': dict(self.violation_keys),
             'known_hits': dict(self.known_hits),
+            'known_samples': dict(self.known_samples),
             'harness_errors': self.harness_errors,
             'extra': self.extra,
             'wall_s': time.time() - self.t0,
@@ -223,7 +231,8 @@ class Harness:
 def merge_partials(parts):
     m = {'evaluations': 0, 'distinct': set(), 'counters': collections.defaultdict(collections.Counter),
          'samples': [], 'violations': [], 'violation_keys': collections.Counter(),
-         'known_hits': collections.Counter(), 'harness_errors': [], 'extra': {}, 'shards': len(parts)}
+         'known_hits': collections.Counter(), 'harness_errors': [], 'extra': {}, 'shards': len(parts),
+         'known_samples': collections.defaultdict(list)}
     for p in parts:
         m['evaluations'] += p['evaluations']
         m['distinct'].update(p['distinct'])
@@ -234,6 +243,9 @@ def merge_partials(parts):
         m['violations'].extend(p['violations'])
         m['violation_keys'].update(p['violation_keys'])
         m['known_hits'].update(p['known_hits'])
+        for k, v in p.get('known_samples', {}).items():
+            if len(m['known_samples'][k]) < 12:
+                m['known_samples'][k].extend(v)
         m['harness_errors'].extend(p['harness_errors'])
         for k, v in p.get('extra', {}).items():
             if isinstance(v, (int, float)) and isinstance(m['extra'].get(k, 0), (int, float)):
@@ -302,6 +314,7 @@ def finish(module, tier, seed, merged, t0, known_lines):
                      for k, v in sorted(merged['counters'].items())},
         'shards': merged.get('shards', 1),
         'known_finding_hits': dict(merged['known_hits']),
+        **({'known_finding_samples': dict(merged['known_samples'])} if merged.get('known_samples') else {}),
         'violation_keys': dict(merged['violation_keys']),
         'inconclusive_reasons': reasons,
     }
